@@ -2037,7 +2037,8 @@ def msvcrt_wcsrchr(jitter):
     ret_ad, args = jitter.func_args_cdecl(['pstr','c'])
     s = get_win_str_w(jitter, args.pstr)
     c = int_to_byte(args.c).decode()
-    ret = args.pstr + (s.rfind(c)*2)
+    idx = s.rfind(c)
+    ret = 0 if idx == -1 else args.pstr + (idx*2)
     log.info("wcsrchr(%x '%s',%s) = %x" % (args.pstr,s,c,ret))
     jitter.func_ret_cdecl(ret_ad, ret)
 
